@@ -29,5 +29,11 @@ for sd in sorted(os.listdir(os.path.join(ROOT, "seeded"))):
         if benign and code == "exit=1":
             flag = "  <== FALSE ALARM"
             bad += 1
+        # a seed recorded as caught must still be caught by the first property listed for it
+        oc = (meta.get("outcome") or "").lower()
+        recorded_caught = "not caught" not in oc and (oc.startswith("caught") or "caught after" in oc or ", caught" in oc or "; caught" in oc or " caught by" in oc)
+        if not benign and recorded_caught and p == props[0] and code != "exit=1":
+            flag = "  <== REGRESSION (recorded as caught)"
+            bad += 1
         print("%-58s %-4s %-7s %s%s" % (sd, p, code, (viol[0] if viol else ""), flag), flush=True)
 sys.exit(1 if bad else 0)
